@@ -265,15 +265,15 @@ func ruleC14_3(c *Ctx) {
 			if s.Fn.Synthetic != "" {
 				continue
 			}
-			okS := outermost(s.Fn) == upd && parsedOK(s.Instr.Block())
+			okS := homeFn(s.Fn) == upd && parsedOK(s.Instr.Block())
 			c.check(okS, shortFn(f)+" called only after a successful parse", c.at(s.Instr), "in updateClusterNodes on parse's err == nil edge",
-				"the published topology is modified from "+shortFn(outermost(s.Fn))+" without a successfully parsed reply: an unusable probe reply (error, nil, too few nodes) replaces or corrupts the routing information", withGuards(guardsAt(s.Instr.Block())))
+				"the published topology is modified from "+shortFn(homeFn(s.Fn))+" without a successfully parsed reply: an unusable probe reply (error, nil, too few nodes) replaces or corrupts the routing information", withGuards(guardsOf(s.Instr)))
 		}
 	}
 	// serverChanged = true after both setters
 	sc := p.Field(pkgCore, "ClusterNodes", "serverChanged")
 	for _, w := range p.fieldWrites(sc) {
-		encl := outermost(w.Fn)
+		encl := homeFn(w.Fn)
 		k, isConst := w.Val.(*ssa.Const)
 		if isConst && k.Value.String() == "true" {
 			okW := encl == upd
@@ -414,7 +414,7 @@ func ruleC14_5(c *Ctx) {
 			return v
 		}
 		start, end := under(rs[0]), under(rs[1])
-		gs := guardsAt(r.Block())
+		gs := guardsOf(r)
 		geZero := guardHas(gs, func(g Guard) bool {
 			x, op, y, ok := cmpGuard(g)
 			k, isK := constInt(y)
@@ -456,14 +456,14 @@ func ruleC14_5(c *Ctx) {
 			okW := false
 			if ex, ok := strip(w.Val).(*ssa.Extract); ok {
 				if _, is := p.isCallTo(ex.Tuple, parseSlot); is {
-					okW = guardHas(guardsAt(w.Instr.Block()), func(g Guard) bool {
+					okW = guardHas(guardsOf(w.Instr), func(g Guard) bool {
 						x, op, y, ok := cmpGuard(g)
 						e2, isEx := x.(*ssa.Extract)
 						return ok && op == token.EQL && isNilConst(y) && isEx && e2.Tuple == ex.Tuple
 					})
 				}
 			}
-			c.check(okW, "Slots."+fname+" written in "+shortFn(outermost(w.Fn)), c.at(w.Instr), "a result of parseSlot on its err == nil edge", "a slot bound is stored that did not pass parseSlot's range check: "+expr(w.Val))
+			c.check(okW, "Slots."+fname+" written in "+shortFn(homeFn(w.Fn)), c.at(w.Instr), "a result of parseSlot on its err == nil edge", "a slot bound is stored that did not pass parseSlot's range check: "+expr(w.Val))
 		}
 	}
 	// (3) every index into the slot table
@@ -535,7 +535,7 @@ func ruleC14_5(c *Ctx) {
 					return false, "argument not found"
 				}
 				if ok, why := classify(s.Call.Args[ai], depth+1); !ok {
-					return false, "caller " + shortFn(outermost(s.Fn)) + " passes " + why
+					return false, "caller " + shortFn(homeFn(s.Fn)) + " passes " + why
 				}
 			}
 			return true, "parameter; every caller passes a checked slot"
@@ -555,7 +555,7 @@ func ruleC14_5(c *Ctx) {
 			}
 			n++
 			ok, why := classify(s.Call.Args[1], 0)
-			c.check(ok, "slot table index at "+shortFn(outermost(s.Fn))+" → "+m, c.at(s.Instr), why,
+			c.check(ok, "slot table index at "+shortFn(homeFn(s.Fn))+" → "+m, c.at(s.Instr), why,
 				"the slot table is indexed with a value that is neither a key hash nor a range-checked slot ("+why+"): out-of-range index panics the event loop")
 		}
 	}
@@ -629,7 +629,7 @@ func ruleC14_6(c *Ctx) {
 	closes := p.callsIn(ticker, poolClose)
 	okClose := false
 	for _, cl := range closes {
-		absent := guardHas(guardsAt(cl.Block()), func(g Guard) bool {
+		absent := guardHas(guardsOf(cl), func(g Guard) bool {
 			ex, ok := g.Cond.(*ssa.Extract)
 			return ok && ex.Index == 1 && !g.Truth && strings.Contains(expr(ex.Tuple), "hashmap.HashMap).Get(")
 		})
@@ -663,7 +663,7 @@ func ruleC14_6(c *Ctx) {
 	c.check(okRole, "ticker: existing pools follow the node's role", p.pos(ticker.Pos()), "pool.SetIsSlave(v.Role == Slave)", "existing pools are not told whether their node is now a replica: connections keep or miss READONLY after a failover")
 	// serverChanged lowered last
 	for _, w := range p.fieldWrites(sc) {
-		if outermost(w.Fn) != ticker {
+		if homeFn(w.Fn) != ticker {
 			continue
 		}
 		k, isConst := w.Val.(*ssa.Const)
@@ -710,7 +710,7 @@ func ruleC14_7(c *Ctx) {
 	}
 	for _, call := range calls {
 		slot := call.Common().Args[2]
-		gs := guardsAt(call.Block())
+		gs := guardsOf(call)
 		var gate *ssa.If
 		okG := guardHas(gs, func(g Guard) bool {
 			ne, ok := p.isCallTo(g.Cond, notExist)
@@ -748,7 +748,7 @@ func ruleC14_8(c *Ctx) {
 	if wcn != nil && owner != nil {
 		n := 0
 		for _, w := range p.fieldWrites(owner) {
-			if outermost(w.Fn) == wcn {
+			if homeFn(w.Fn) == wcn {
 				n++
 			}
 		}
@@ -785,11 +785,11 @@ func ruleC14_8(c *Ctx) {
 				return
 			}
 			n++
-			encl := outermost(fn)
+			encl := homeFn(fn)
 			c.check(encl == sread && !blocking, "send on the refresh channel in "+shortFn(encl), c.at(in), "non-blocking select in eventloop.sread",
 				"a probe reply is sent on the refresh channel with a blocking send (or outside the backend read path): when the refresh goroutine is busy the single event loop blocks and every client stalls")
 			if encl == sread {
-				gs := guardsAt(in.Block())
+				gs := guardsOf(in)
 				okO := guardHas(gs, func(g Guard) bool {
 					x, op, y, ok := cmpGuard(g)
 					_, isOwner := fieldLoad(x, owner)
